@@ -166,3 +166,19 @@ def reauth_fault_then_recover(rng, n):
         hs = [[(0, 1, 0)]] + [fault] * nfault + [[(0, 1, 0)]] * 6
         out.append(([0] * 8, hs, replies + [[(0, 0, rng.randrange(1, 250))] for _ in range(6)], ops))
     return out
+
+
+def key_age_histories(rng, n):
+    """the 12 h life of a session key counts from its handshake: exchanges in between (each less than 12 h after the previous one,
+    more than 12 h after the handshake in total) do not extend it - the first exchange past 12 h starts with a new handshake"""
+    out = []
+    H = 3600 * 1000
+    for _ in range(n):
+        steps = rng.choice([[7 * H, 6 * H], [5 * H, 5 * H, 3 * H], [11 * H, 2 * H], [4 * H, 4 * H, 3 * H, 2 * H], [6 * H, 6 * H + 5000]])
+        lvl = rng.choice([1, 3])
+        ops = [(2, 1, 3) if lvl == 1 else (4, 1, 0)]
+        for st in steps:
+            ops += [(5, st, 0), (lvl, rng.randrange(1, 200), 3 if lvl == 1 else 0)]
+        ops += [(lvl, rng.randrange(1, 200), 3 if lvl == 1 else 0)]
+        out.append(([0] * 8, [[(0, 1, 0)]] * 8, [[(0, 0, rng.randrange(1, 250))] for _ in range(8)], ops))
+    return out
